@@ -243,6 +243,9 @@ PerMsg(c, o, m, L, ev) ==
            /\ ObservedStages(L) # ExpectedStages(c, oc, oc # "depfail", r.sb = 1, r.se > 0 /\ r.seOk)
         THEN {"C10_Complete"} ELSE {})
   \cup (IF valid /\ ev.e = "cb_e" /\ ~endedOk /\ hooksOk THEN {"C10_Complete"} ELSE {})
+  (* on_error / post_execute / saving come AFTER the task function: a coroutine that was started has ended by then *)
+  \cup (IF valid /\ ev.e \in {"onerr_b", "post_b", "save_b"} /\ r.st > 0 /\ r.en = 0 /\ MsgC(c, m).task \in {"ta", "ta0"}
+        THEN {"C10_ExecOrder"} ELSE {})
   (* ---------------- C12 ---------------- *)
   \cup (IF \A d \in RangeS(closed) : CntX(L, "dep_close", d) = 1 /\ HasX(L, "dep_open", d)
         THEN {} ELSE {"C12_Once"})
